@@ -18,6 +18,7 @@ See DESIGN.md section 4 / C14.
 """
 from vf.monitors import _c14_defs as defs
 from vf.monitors import _c14_objs as objs
+from vf.monitors import _c14_min as minfam
 
 META = {
     "level": "exploration",
@@ -29,7 +30,11 @@ META = {
              "write, del, delegate swap / removal), transient writes, "
              "one ReadOnly write, property reads, dynamic listeners) on a module-level class; copy modes = "
              "pickle protocols 0-5, copy.deepcopy, clone_traits(copy=None/'shallow'/'deep'); a second "
-             "generation copies a battered copy again.  B: cases = (definition kind, round-trip mode) "
+             "generation copies a battered copy again.  A minimal family of 32 module-level classes carrying "
+             "exactly one liveness feature each (one observer / post_init observer / observed or depends_on "
+             "property / items handler / bare container / legacy listener / delegate / ReadOnly / transient "
+             "/ event) goes through the same ten copy modes and the probe of its feature, so that no "
+             "mechanism's re-initialisation is masked by another's.  B: cases = (definition kind, round-trip mode) "
              "with kinds = c01's atomic catalogue + properties (plain/validated/cached/observed, every "
              "getter/setter/validator arity), delegates, events, constants, policies, compounds, mapped, "
              "containers, instances by class/name, adapters, misc; modes = pickle 0/2/5, deepcopy, copy; "
@@ -46,7 +51,8 @@ META = {
                   "live_rejected": 48000, "live_accepted": 27000, "live_converted": 12000,
                   "live_notify_probes": 36000, "live_notifications": 80000, "property_steps": 16000,
                   "readonly_checked": 1300, "container_copies": 1600, "ref_identity_checked": 200,
-                  "deferral_checked": 3500,
+                  "deferral_checked": 3500, "min_states": 120, "min_copies": 1200, "min_copies_live": 1200,
+                  "min_notify_probes": 800, "min_checks": 1500,
                   "def_kinds": 120, "def_roundtrips": 600, "def_roundtrips_sanitized": 300,
                   "def_validate_comparisons": 120000, "def_install_steps": 80000},
         "thorough": {"evaluations": 10000000, "states": 12000, "copies": 80000, "batteries_completed": 80000,
@@ -55,7 +61,8 @@ META = {
                      "live_rejected": 1200000, "live_accepted": 650000, "live_converted": 300000,
                      "live_notify_probes": 900000, "live_notifications": 2000000, "property_steps": 400000,
                      "readonly_checked": 30000, "container_copies": 45000, "ref_identity_checked": 4500,
-                     "deferral_checked": 80000,
+                     "deferral_checked": 80000, "min_states": 2500, "min_copies": 25000,
+                     "min_copies_live": 25000, "min_notify_probes": 16000, "min_checks": 33000,
                      "def_kinds": 120, "def_roundtrips": 600, "def_roundtrips_sanitized": 300,
                      "def_validate_comparisons": 120000, "def_install_steps": 80000},
     },
@@ -78,5 +85,6 @@ def run(ctx):
     if ctx.phase == "defs":
         defs.run_defs(ctx)
         return
+    minfam.run_min(ctx)
     objs.run_objects(ctx)
     defs.run_defs(ctx, shard_offset=5)
